@@ -102,6 +102,7 @@ std::string plan_to_json(const Plan& p) {
   jint(s, "check_error_callback", p.check_error_callback, f); jint(s, "expect_no_null", p.expect_no_null, f);
   jint(s, "purge_overlap_check", p.purge_overlap_check, f); jint(s, "sample_verify", p.sample_verify, f);
   if (!p.note.empty()) jstr(s, "note", p.note, f);
+  if (p.auto_advance_every) { jnum(s, "auto_advance_every", p.auto_advance_every, f); jnum(s, "auto_advance_ms", p.auto_advance_ms, f); }
   s += ",\"cfg\":" + cfg_to_json(p.cfg);
   s += ",\"env\":{"; for (size_t i = 0; i < p.env.size(); i++) { if (i) s += ","; s += "\"" + p.env[i].first + "\":\"" + JsonOut::esc(p.env[i].second) + "\""; } s += "}";
   s += ",\"progs\":[";
@@ -145,6 +146,8 @@ bool plan_from_json(const std::string& text, Plan& p, std::string& err) {
   if ((v = root.get("purge_overlap_check"))) p.purge_overlap_check = v->i64() != 0;
   if ((v = root.get("sample_verify"))) p.sample_verify = v->i64() != 0;
   if ((v = root.get("note"))) p.note = v->s;
+  if ((v = root.get("auto_advance_every"))) p.auto_advance_every = v->u64();
+  if ((v = root.get("auto_advance_ms"))) p.auto_advance_ms = v->u64();
   if ((v = root.get("cfg")) && v->t == JV::OBJ) cfg_from_json(*v, p.cfg);
   if ((v = root.get("env")) && v->t == JV::OBJ) for (auto& kv : v->o) p.env.emplace_back(kv.first, kv.second.s);
   if (!(v = root.get("progs")) || v->t != JV::ARR) { err = "no progs"; return false; }
@@ -195,5 +198,14 @@ void plan_apply_overrides(Plan& p, const std::map<std::string, std::string>& kv)
     else if (k == "overcommit") p.cfg.overcommit = atoi(v);
     else if (k == "wall_limit_s") p.cfg.wall_limit_s = atof(v);
     else if (k == "trace") p.cfg.trace = atoi(v) != 0;
+    else if (k == "thp_einval") p.cfg.thp_einval = atoi(v);
+    else if (k == "place_unaligned_p") p.cfg.place_unaligned_p = atof(v);
+    else if (k == "auto_advance_every") p.auto_advance_every = strtoull(v, nullptr, 0);
+    else if (k == "auto_advance_ms") p.auto_advance_ms = strtoull(v, nullptr, 0);
+    else if (k.compare(0, 4, "env:") == 0) {          // env:MIMALLOC_NAME=value  (empty value removes it)
+      std::string n = k.substr(4); bool found = false;
+      for (size_t i = 0; i < p.env.size(); i++) if (p.env[i].first == n) { found = true; if (*v) p.env[i].second = v; else { p.env.erase(p.env.begin() + (long)i); } break; }
+      if (!found && *v) p.env.emplace_back(n, v);
+    }
   }
 }
